@@ -16,7 +16,7 @@ func init() {
 	Register(&Property{
 		ID: "C14", Level: "exploration",
 		Rule: "E1 full product: 4 series x coefficient {0.001,0.1,0.25,0.5,0.75,0.999 + invalid 0,1,-0.5,1.5} x minValue,maxValue in {0,0.001,0.1,0.25,0.5,0.75,1 + invalid -0.1,1.1} " +
-			"x criterion ranges {[0,10],[-5,5],[3,3]} declared / observed x gain/cost. Driver (i): the exported level sources through Find+Initialize/HasNext/Next with a 1e6 step cap " +
+			"x criterion ranges {[0,10],[-5,5],[3,3],[-8,-2],[-4,0]} declared / observed x gain/cost. Driver (i): the exported level sources through Find+Initialize/HasNext/Next with a 1e6 step cap " +
 			"(whole series: start, update rule, stop rule, clamping, placement, strict monotonicity, finiteness, rejection of out-of-range parameters); " +
 			"driver (ii) end-to-end through the service: every threshold reported by aspect-elimination / satisfaction requests equals the reference series element at the reported index, " +
 			"and each series name is accepted only by the heuristic it is documented for (wiring of httpClient/main.go). " +
@@ -35,7 +35,7 @@ type c14Range struct {
 	Declared bool
 }
 
-var c14Ranges = []c14Range{{0, 10, true}, {0, 10, false}, {-5, 5, true}, {-5, 5, false}, {3, 3, false}}
+var c14Ranges = []c14Range{{0, 10, true}, {0, 10, false}, {-5, 5, true}, {-5, 5, false}, {3, 3, false}, {-8, -2, false}, {-8, -2, true}, {-4, 0, false}}
 
 var c14Series = []struct {
 	Name       string
